@@ -115,8 +115,8 @@ func (g *gen) genType(depth int) *TSpec {
 		return g.primType()
 	}
 	k := r.Intn(13)
-	if g.plain && k >= 10 {
-		k = r.Intn(10)
+	if g.plain && k >= 11 {
+		k = r.Intn(11) // error types are inside the proved fragment, named types are not
 	}
 	switch k {
 	case 0, 1, 2:
